@@ -40,7 +40,7 @@ type actIn struct {
 	// a stream given as segments whose IDENTIFY bodies name LIVE identities (the addresses
 	// are only known at run time); when present it replaces Stream
 	Segs  []segIn     `json:"segs,omitempty"`
-	Extra [][2]string `json:"extra,omitempty"` // vop identify: extra JSON members (key, value template) of the body
+	Extra [][2]string `json:"extra,omitempty"`  // vop identify: extra JSON members (key, value template) of the body
 	IdTag string      `json:"id_tag,omitempty"` // key=value-kind label of the identity member, for the distribution table
 }
 
@@ -89,7 +89,7 @@ type sessIn struct {
 const byTopic = "by"
 const byChan = "ch"
 const byEph = "bce#ephemeral" // an ephemeral channel the bystander shares with hostile connections
-const visTopic = "vt"          // the visitor's own topic / channel (it also registers on the bystander's)
+const visTopic = "vt"         // the visitor's own topic / channel (it also registers on the bystander's)
 const visChan = "vc"
 
 var byInfo = infoIn{"bystander", 4150, 4151, "1.3.0"}
